@@ -5,6 +5,7 @@ package main
 
 import (
 	"fmt"
+	"html"
 	"path/filepath"
 	"strings"
 	"sync"
@@ -21,7 +22,7 @@ type call struct {
 	kids     []call // calls inside the block, after the marker
 }
 
-var kinds = []string{"slot", "noslot", "twice", "wrap", "flush", "once", "join", "fnIgnore", "fnForward"}
+var kinds = []string{"slot", "noslot", "twice", "wrap", "flush", "once", "join", "fnIgnore", "fnForward", "argslot", "flushPlain"}
 
 const library = `package main
 
@@ -168,6 +169,30 @@ func HandlerHistories(a *rt.A) templ.Component {
 	})
 }
 
+// eager renders a component to a string with the caller's context while the arguments of a call are evaluated.
+func eager(ctx context.Context, c templ.Component) string {
+	var b strings.Builder
+	if err := c.Render(ctx, &b); err != nil {
+		return "ERR:" + err.Error()
+	}
+	return b.String()
+}
+
+// fnFlushPlain is a hand-written component that renders templ.Flush, with the block it was given, onto a plain
+// buffer (a writer without a Flush method) and wraps the result in <p>.
+func fnFlushPlain() templ.Component {
+	return templ.ComponentFunc(func(ctx context.Context, w io.Writer) error {
+		children := templ.GetChildren(ctx)
+		ctx = templ.ClearChildren(ctx)
+		var b strings.Builder
+		if err := templ.Flush().Render(templ.WithChildren(ctx, children), &b); err != nil {
+			return err
+		}
+		_, err := io.WriteString(w, "<p>"+b.String()+"</p>")
+		return err
+	})
+}
+
 // fnForward is a hand-written component that places its children between <g> and </g>.
 func fnForward() templ.Component {
 	return templ.ComponentFunc(func(ctx context.Context, w io.Writer) error {
@@ -205,6 +230,11 @@ func (c call) expr() string {
 		return "fnIgnore()"
 	case "fnForward":
 		return "fnForward()"
+	case "argslot":
+		// the argument renders a slot component (called without a block) while the call is being prepared
+		return "cslotArg(eager(ctx, cslot()))"
+	case "flushPlain":
+		return "fnFlushPlain()"
 	}
 	panic(c.kind)
 }
@@ -272,6 +302,10 @@ func render(cs []call, onceDone *bool) string {
 			b.WriteString("<f></f>")
 		case "fnForward":
 			b.WriteString("<g>" + block() + "</g>")
+		case "argslot":
+			b.WriteString("<sdata-a=\"" + html.EscapeString("<s></s>") + "\">" + block() + "</s>")
+		case "flushPlain":
+			b.WriteString("<p>" + block() + "</p>")
 		}
 	}
 	return b.String()
@@ -339,10 +373,21 @@ func (d *dyn) take() *blk { c := d.regBlk; d.regBlk = nil; return c }
 func (d *dyn) calls(cs []call) string {
 	var b strings.Builder
 	for _, c := range cs {
+		argAttr := ""
+		if c.kind == "argslot" {
+			// the argument is evaluated before the block is registered: its slot takes whatever is registered now
+			argAttr = html.EscapeString("<s>" + d.block(d.take()) + "</s>")
+		}
 		if c.hasBlock {
 			d.regBlk = &blk{marker: c.marker, kids: c.kids}
 		}
 		switch c.kind {
+		case "argslot":
+			ch := d.take()
+			b.WriteString("<sdata-a=\"" + argAttr + "\">" + d.block(ch) + "</s>")
+		case "flushPlain":
+			ch := d.take()
+			b.WriteString("<p>" + d.block(ch) + "</p>")
 		case "slot":
 			ch := d.take()
 			b.WriteString("<s>" + d.block(ch) + "</s>")
